@@ -1,6 +1,8 @@
 import CookModel.Lemmas.Collector
 import CookModel.Lemmas.CollectorFold
 import CookModel.Lemmas.ClosingStream
+import CookModel.Lemmas.CollectorOrder
+import CookModel.Lemmas.CollectorRefIff
 /-
   C06  The recipe model is referentially consistent.
 
@@ -204,5 +206,142 @@ example : ∀ ev ∈ ([.start .step,
   intro ev hmem
   simp only [List.mem_cons, List.mem_nil_iff, or_false] at hmem
   rcases hmem with rfl | rfl | rfl | rfl | rfl <;> simp [EvOK, Modifiers.contains]
+
+/-! ### document order of the item indices (Lemmas/CollectorOrder.lean) -/
+
+/-- the fold keeps the order invariant: in the items pushed so far (finished sections, current
+    section, open block, in this order) the indices of each kind are strictly increasing and below the
+    table length — a new component gets the index `table.len()` and is appended at the end, a dropped
+    block (components mode, a `Start` without `End`) only removes items -/
+theorem C06_order_invariant_step (env : Env) (input : Str) (ev : Ev α) (s : Col α) (hi : Inv env s) (ho : OrdInv s)
+    (hev : EvOK ev) : OrdInv (processEvent env input ev s).2 := processEvent_ord env input ev s hi ho hev
+
+/-- for ANY list of `EvOK` events: reading the returned recipe's sections, their steps and the items
+    of each step in order (`recipeItems`), the ingredient indices are strictly increasing and each is
+    below the number of ingredients; likewise the cookware, timer and inline quantity indices -/
+theorem C06_indices_in_document_order_of_events (env : Env) (input : Str) (evs : List (Ev α)) (c : Col α)
+    (hev : ∀ ev ∈ evs, EvOK ev) (h : (parseEventsLoop env input evs {}).output = some c) : OrdFinal c :=
+  parseEventsLoop_ord env input evs {} c (Inv.init env) OrdInv.init hev h
+
+/-- **Item indices follow the document order.**  In every recipe `parse` returns (valid or not, any
+    extensions): going through the sections, the steps of each section and the items of each step in
+    order, the indices of the ingredient items are STRICTLY INCREASING and below `ingredients.len()`;
+    the same holds of the cookware items, the timer items and the inline quantity items.  So no two
+    items address the same component, and an item that comes later in the text addresses a component
+    that was added later.  (The indices need not be consecutive: with the MODES extension a block in
+    `[mode]: components` adds components to the tables without pushing a step, so later items skip
+    those indices.) -/
+theorem C06_indices_in_document_order (env : Env) (input : Str) (c : Col α)
+    (h : (parseRecipe (α := α) env input).output = some c) :
+    (((recipeItems c).filterMap Item.ingrIdx).Pairwise (· < ·) ∧
+      ∀ i ∈ (recipeItems c).filterMap Item.ingrIdx, i < c.ingredients.size) ∧
+    (((recipeItems c).filterMap Item.cwIdx).Pairwise (· < ·) ∧
+      ∀ i ∈ (recipeItems c).filterMap Item.cwIdx, i < c.cookware.size) ∧
+    (((recipeItems c).filterMap Item.timerIdx).Pairwise (· < ·) ∧
+      ∀ i ∈ (recipeItems c).filterMap Item.timerIdx, i < c.timers.size) ∧
+    (((recipeItems c).filterMap Item.iqIdx).Pairwise (· < ·) ∧
+      ∀ i ∈ (recipeItems c).filterMap Item.iqIdx, i < c.inlineQ.size) := by
+  have := C06_indices_in_document_order_of_events env input _ c (pullEvents_evOK env.cs env.ext input) h
+  exact ⟨this.ingr, this.cw, this.tm, this.iq⟩
+
+/-- **Consecutive indices when nothing is skipped.**  If the recipe has as many ingredient items as
+    ingredients (no ingredient was added by a `[mode]: components` block or another dropped block),
+    then the k-th ingredient item has index k: the indices read in document order are exactly
+    `0, 1, …, n-1`.  Likewise for cookware and timers. -/
+theorem C06_indices_consecutive_when_none_skipped (env : Env) (input : Str) (c : Col α)
+    (h : (parseRecipe (α := α) env input).output = some c) :
+    (((recipeItems c).filterMap Item.ingrIdx).length = c.ingredients.size →
+      (recipeItems c).filterMap Item.ingrIdx = List.range c.ingredients.size) ∧
+    (((recipeItems c).filterMap Item.cwIdx).length = c.cookware.size →
+      (recipeItems c).filterMap Item.cwIdx = List.range c.cookware.size) ∧
+    (((recipeItems c).filterMap Item.timerIdx).length = c.timers.size →
+      (recipeItems c).filterMap Item.timerIdx = List.range c.timers.size) := by
+  have := C06_indices_in_document_order_of_events env input _ c (pullEvents_evOK env.cs env.ext input) h
+  exact ⟨this.ingr.eq_range, this.cw.eq_range, this.tm.eq_range⟩
+
+/-! non-vacuity: `recipeItems` of a two-section recipe; a repeated or decreasing index is rejected -/
+example : recipeItems (α := Rat) { sections := [⟨none, [.step ⟨[.ingredient 0, .text ['a'], .cookware 0], 1⟩, .text ['x']]⟩,
+      ⟨some ['s'], [.step ⟨[.ingredient 2], 1⟩]⟩] } =
+    [.ingredient 0, .text ['a'], .cookware 0, .ingredient 2] := by rfl
+example : IncBelow 3 [0, 2] := by unfold IncBelow; decide
+example : ¬ IncBelow 3 [1, 1] := by unfold IncBelow; decide
+example : ¬ IncBelow 3 [2, 0] := by unfold IncBelow; decide
+
+/-! ### reference exactly when REF, for results without errors (Lemmas/CollectorRefIff.lean) -/
+
+/-- the fold never removes a diagnostic: whatever was reported stays reported (so an error pushed
+    while a component is analysed is still in the final report) -/
+theorem C06_diagnostics_only_grow (env : Env) (input : Str) (ev : Ev α) (s : Col α) :
+    ∀ d ∈ s.diags.toList, d ∈ (processEvent env input ev s).2.diags.toList :=
+  ((processEvent_fr env input ev).out s).1
+
+/-- every event keeps: an error has been reported, or every ingredient and cookware item carrying the
+    REF modifier is a reference.  (`resolve_reference` returns modifiers with REF but no target only
+    together with `reference-not-found` or the `+&` conflict; an intermediate reference that does not
+    resolve reports its error.) -/
+theorem C06_ref_invariant_step (env : Env) (input : Str) (ev : Ev α) (s : Col α) (hi : Inv env s) (hr : RefInv s)
+    (hev : EvOK ev) : RefInv (processEvent env input ev s).2 := processEvent_refInv env input ev s hi hr hev
+
+/-- for ANY list of `EvOK` events whose report has no error: a component is a reference exactly when
+    it carries the REF modifier -/
+theorem C06_reference_iff_ref_modifier_of_events (env : Env) (input : Str) (evs : List (Ev α)) (c : Col α)
+    (hev : ∀ ev ∈ evs, EvOK ev) (h : (parseEventsLoop env input evs {}).output = some c)
+    (hno : ∀ d ∈ (parseEventsLoop env input evs {}).diags.toList, d.sev ≠ Sev.error) :
+    (∀ (k : Nat) (ig : Ingredient (ScalableValue α)), c.ingredients[k]? = some ig →
+      (ig.relation.relation.isReference = true ↔ ig.modifiers.contains Modifiers.REF = true)) ∧
+    (∀ (k : Nat) (cw : Cookware (ScalableValue α)), c.cookware[k]? = some cw →
+      (cw.relation.isReference = true ↔ cw.modifiers.contains Modifiers.REF = true)) := by
+  have hf := C06_invariant_output env input evs c hev h
+  rcases parseEventsLoop_refInv env input evs {} c (Inv.init env) RefInv.init hev h with ⟨d, hd, hs⟩ | ⟨hI, hC⟩
+  · exact absurd hs (hno d hd)
+  · exact ⟨fun k ig hk => ⟨hf.itab.refREF k ig hk, hI k ig hk⟩, fun k cw hk => ⟨hf.ctab.refREF k cw hk, hC k cw hk⟩⟩
+
+/-- **Reference exactly when REF.**  When `parse` returns a recipe and its report contains no error
+    (warnings allowed): an ingredient's relation is a reference (regular or intermediate) if and only
+    if the ingredient carries the REF modifier, and a regular reference then points to an EARLIER
+    ingredient that is a definition without the REF modifier; the same for cookware. -/
+theorem C06_reference_iff_ref_modifier (env : Env) (input : Str) (c : Col α)
+    (h : (parseRecipe (α := α) env input).output = some c)
+    (hno : ∀ d ∈ (parseRecipe (α := α) env input).diags.toList, d.sev ≠ Sev.error) :
+    (∀ (k : Nat) (ig : Ingredient (ScalableValue α)), c.ingredients[k]? = some ig →
+      (ig.relation.relation.isReference = true ↔ ig.modifiers.contains Modifiers.REF = true) ∧
+      ∀ t, ig.relation = ⟨.reference t, some .ingredient⟩ →
+        t < k ∧ ∃ d, c.ingredients[t]? = some d ∧ d.modifiers.contains Modifiers.REF = false ∧
+          ∃ rf b, d.relation.relation = .definition rf b) ∧
+    (∀ (k : Nat) (cw : Cookware (ScalableValue α)), c.cookware[k]? = some cw →
+      (cw.relation.isReference = true ↔ cw.modifiers.contains Modifiers.REF = true) ∧
+      ∀ t, cw.relation = .reference t →
+        t < k ∧ ∃ d, c.cookware[t]? = some d ∧ d.modifiers.contains Modifiers.REF = false ∧
+          ∃ rf b, d.relation = .definition rf b) := by
+  have hev := pullEvents_evOK (α := α) env.cs env.ext input
+  have hiff := C06_reference_iff_ref_modifier_of_events env input _ c hev h hno
+  refine ⟨fun k ig hk => ⟨hiff.1 k ig hk, fun t ht => ?_⟩, fun k cw hk => ⟨hiff.2 k cw hk, fun t ht => ?_⟩⟩
+  · obtain ⟨h1, d, h2, _, h3, rf, b, h4, _⟩ := C06_reference_backlinks env input _ c hev h k ig hk t ht
+    exact ⟨h1, d, h2, h3, rf, b, h4⟩
+  · obtain ⟨h1, d, h2, _, h3, rf, b, h4, _⟩ := C06_cookware_reference_backlinks env input _ c hev h k cw hk t ht
+    exact ⟨h1, d, h2, h3, rf, b, h4⟩
+
+/-- **C06 with all clauses of the design.**  Every recipe `parse` returns satisfies `RecipeInv` (indices
+    in range, back-links exact, nothing empty, steps numbered, timers named or quantified) AND has its
+    item indices strictly increasing in document order per kind (`OrdFinal`); and when the report has
+    no error, each ingredient and cookware item is a reference exactly when it carries REF. -/
+theorem C06_holds_extended (env : Env) (input : Str) (c : Col Rat)
+    (h : (parseRecipe (α := Rat) env input).output = some c) :
+    RecipeInv c ∧ OrdFinal c ∧
+    ((∀ d ∈ (parseRecipe (α := Rat) env input).diags.toList, d.sev ≠ Sev.error) →
+      (∀ (k : Nat) (ig : Ingredient (ScalableValue Rat)), c.ingredients[k]? = some ig →
+        (ig.relation.relation.isReference = true ↔ ig.modifiers.contains Modifiers.REF = true)) ∧
+      (∀ (k : Nat) (cw : Cookware (ScalableValue Rat)), c.cookware[k]? = some cw →
+        (cw.relation.isReference = true ↔ cw.modifiers.contains Modifiers.REF = true))) :=
+  ⟨C06_holds env input c h,
+   C06_indices_in_document_order_of_events env input _ c (pullEvents_evOK env.cs env.ext input) h,
+   fun hno => C06_reference_iff_ref_modifier_of_events env input _ c (pullEvents_evOK env.cs env.ext input) h hno⟩
+
+/-! non-vacuity: a report with only a warning has no error; one with an error has -/
+example : ¬ HasErr #[⟨.warning, .analysis, "redundant-ref", []⟩] := by
+  rintro ⟨d, hd, hs⟩
+  simp at hd; subst hd; cases hs
+example : HasErr #[⟨.warning, .analysis, "redundant-ref", []⟩, ⟨.error, .analysis, "reference-not-found", [⟨0, 1⟩]⟩] :=
+  ⟨⟨.error, .analysis, "reference-not-found", [⟨0, 1⟩]⟩, by simp, rfl⟩
 
 end Cook
